@@ -902,7 +902,19 @@ impl<'a> Interp<'a> {
         let ops = &self.case.ops;
         for (i, op) in ops.iter().enumerate() {
             self.step = i;
-            self.exec(op)?;
+            let trace = std::env::var_os("VERIF_TRACE").is_some();
+            if trace {
+                eprintln!("TRACE step {i}: {op:?}");
+            }
+            let r = self.exec(op);
+            if trace {
+                if let Some(db) = self.db.as_ref() {
+                    for f in db.verif_layout() {
+                        eprintln!("TRACE    {}", show_layout(&[f]));
+                    }
+                }
+            }
+            r?;
             self.stats.steps += 1;
             if self.o.sync_bg {
                 self.wait_idle()?;
